@@ -4,19 +4,23 @@ from propslib import fn_scope
 PROP = dict(
     extract=["editor"],
     lean_targets=["Chewing.Props.C02"],
-    runs=[dict(bin="editor")],
+    runs=[dict(bin="editor"), dict(bin="editor", args=["--script", "c02"], tag="editor-c02-tab-overflow"),
+          dict(bin="capi_props", tag="capi_props", args=["--histories", "300", "--calls", "40"], args_thorough=["--histories", "6000", "--calls", "40"])],
     scope=fn_scope("ed key", "ed commit", "ed select"),
     level="proof",
     exhaustive=False,
     rule="one evaluation = one key / commit() / select() step of the real editor (generated histories over in-memory "
          "dictionaries, three engines, thresholds 0..39 with 0..8 frequent, selections, breaks, Tab-cycled alternatives, "
-         "API calls and option changes in between), recomputed by the model from the implementation's own complete "
+         "API calls and option changes in between; plus scripted histories (run editor-c02-tab-overflow): two crossing user "
+         "phrases with pairwise different characters, Tab pressed 0..4 times at the end of the buffer, the limit at or below "
+         "the length, then overflow by one more syllable / select(0) / Tab itself, or Enter / commit()), recomputed by the model from the implementation's own complete "
          "pre-state; distinct = distinct record text",
     trusted_base=["hook H1 (Editor::verif_snapshot) is read-only; the layout and conversion answers of each step are recorded "
                   "through wrapper objects installed through the public constructors",
                   "oracle: display()/display_commit()/len() are called through the public API before and after each "
                   "operation; the conversion of the full buffer at overflow time is the engine's recorded answer to the last "
-                  "conversion call of the step"],
+                  "conversion call of the step, read at the alternative index of the state BEFORE the operation (one further "
+                  "for Tab at the end of the buffer), never at the index the implementation is left with"],
     assumptions=["'the pre-edit string shown immediately before' = Editor::display() of the state the key/call arrives in "
                  "(dictionary before auto-learning)",
                  "'leading part of the conversion of the full buffer' = of the buffer including what the key inserted, at the "
@@ -63,8 +67,12 @@ MANIFEST = dict(
          "editor over C03's engine model and example dictionary runs to the end and satisfies the ledger. "
          "Tie: per-step correspondence of the model with the real editor from its own pre-state (0 differences), plus the "
          "property evaluated directly on the real editor (oracle_c02: display() before vs commit string after, least-prefix "
-         "and conservation against the engine's recorded answer for the full buffer, a running per-session ledger, commit "
-         "routes counted).",
+         "and conservation against the engine's recorded answer for the full buffer under the alternative the user had cycled "
+         "to BEFORE the operation, a running per-session ledger, commit routes counted; stats "
+         "c02_auto_commits_alt_pushes_out_other_text_key/_select count the overflows in which the chosen alternative pushes "
+         "out other text than the default segmentation would - generated histories and the scripted run "
+         "editor-c02-tab-overflow). "
+         "C API (round 2, run capi_props): generated key/API histories (every chewing_handle_* handler incl. Default with all printable characters and non-characters, chewing_cand_*, option setters, buffer calls; three kinds of data directory) are driven through a C context and in lock-step through a twin chewing::editor::Editor built over the same data; after every call every C getter is compared with the twin's Rust getter (by-design differences modelled one by one: static vs heap strings, stateful Enumerate iterators, legacy zuin_*, chewing_ack) and this property's statement is evaluated on the C observations before/after the call; a difference or a failing statement is an oracle verdict with the history (FX2: the handlers narrowed the int key with `as u8`, repaired by fix a8c8390).",
     note="Theorem: everything above, about the model. Correspondence (sampled, not proved): model = src/editor/mod.rs on the "
          "generated histories. Premise, not proved here: that the real engines are C03's model (C03's own correspondence). "
          "That editor histories reach only valid compositions with a word for every buffered syllable is C01's invariant, now "
@@ -72,7 +80,8 @@ MANIFEST = dict(
          "exclusion of C01's word-losing class Known (former F02/F03: no longer a crash, but the spelling shown for a word-less syllable has 1-4 characters; oracle_c02 counts a spelled syllable as one symbol: stats c02_commits_with_wordless_spelling) (jump_* on an open phrase list is included since C01 covers it); C03's engine "
          "theorems reach buffers of at most 128 symbols, beyond that the engine clause is assumed. Trusted: Lean kernel (standard axioms), the read-only snapshot hook, harness + compiled "
          "model driver. F29 (commit string outliving its key) was a genuine defect, repaired by fix commit 1c4da4f; "
-         "reintroducing it is reported with a 3-step history.",
+         "reintroducing it is reported with a 3-step history. Resetting the chosen alternative before the pushed-out "
+         "intervals are rendered (seeded change) is reported by the oracle with the key history and the displayed pre-edit.",
     technique="Lean 4 proof (induction over the interval list and over operation lists; case analysis over every arm of the "
               "key-event state machine); per-step model/implementation correspondence",
 )
